@@ -1,1 +1,364 @@
-fn main(){}
+//! zoogen: generates the zoo workspace (DESIGN.md 3.5): ASN.1 modules from vgen pushed through the real
+//! front end (Converter / asn_to_rust!), a dispatch table and schema.json for zoorun.
+use asn1rs::converter::Converter;
+use monitors::journal::guarded;
+use monitors::report::Args;
+use serde_json::json;
+use std::collections::BTreeMap;
+use std::fmt::Write as _;
+use std::path::{Path, PathBuf};
+use vgen::gen::{Gen, GenCfg};
+use vgen::print::print_module;
+use vgen::rng::Rng;
+use vgen::schema::*;
+
+mod families;
+
+pub struct Group {
+    pub family: String,
+    pub modules: Vec<Module>,
+    /// emit through the inline macro instead of the Converter (single-module groups only)
+    pub inline_macro: bool,
+    /// for the compat family: (definition in module 0, definition in module 1) pairs
+    pub pairs: Vec<(String, String)>,
+    /// free-form per-definition annotation handed to zoorun (e.g. the C03 shape)
+    pub notes: BTreeMap<String, serde_json::Value>,
+}
+
+impl Group {
+    pub fn new(family: &str, modules: Vec<Module>) -> Group {
+        Group { family: family.to_string(), modules, inline_macro: false, pairs: vec![], notes: BTreeMap::new() }
+    }
+}
+
+fn write_if_changed(path: &Path, content: &str) {
+    if let Ok(old) = std::fs::read_to_string(path) {
+        if old == content {
+            return;
+        }
+    }
+    if let Some(p) = path.parent() {
+        std::fs::create_dir_all(p).unwrap();
+    }
+    std::fs::write(path, content).unwrap();
+}
+
+fn rust_module_name(name: &str) -> String {
+    // only used for names this generator makes up itself (Zm<k>x<j>): lower-case with underscores
+    let mut out = String::new();
+    for (i, c) in name.chars().enumerate() {
+        if c.is_uppercase() && i > 0 {
+            out.push('_');
+        }
+        out.extend(c.to_lowercase());
+    }
+    out
+}
+
+struct Emitted {
+    /// (module index, rust module path below the group module, file content)
+    files: Vec<(usize, String, String)>,
+}
+
+fn emit_group(g: &Group, scratch: &Path) -> Result<Emitted, String> {
+    let texts: Vec<String> = g.modules.iter().map(print_module).collect();
+    if g.inline_macro && g.modules.len() == 1 {
+        // the proc-macro runs the same front end at compile time; check acceptance here to attribute rejections
+        let t = texts[0].clone();
+        match guarded(|| asn1rs::model::proc_macro::asn_to_rust(&t)) {
+            Ok(_) => {}
+            Err(p) => return Err(format!("front end panicked: {}", p.signature())),
+        }
+        let content = format!("use asn1rs::prelude::*;\nasn_to_rust!(r####\"{}\"####);\n", texts[0]);
+        return Ok(Emitted { files: vec![(0, "inline".to_string(), content)] });
+    }
+    let dir = scratch.join("asn");
+    let out = scratch.join("rs");
+    let _ = std::fs::remove_dir_all(scratch);
+    std::fs::create_dir_all(&dir).unwrap();
+    std::fs::create_dir_all(&out).unwrap();
+    let r = guarded(|| -> Result<Vec<(usize, String, String)>, String> {
+        let mut conv = Converter::default();
+        for (i, t) in texts.iter().enumerate() {
+            let p = dir.join(format!("m{}.asn1", i));
+            std::fs::write(&p, t).unwrap();
+            conv.load_file(&p).map_err(|e| format!("load_file: {:?}", e).chars().take(300).collect::<String>())?;
+        }
+        let map = conv.to_rust(&out, |_| {}).map_err(|e| format!("to_rust: {:?}", e).chars().take(300).collect::<String>())?;
+        let mut files = Vec::new();
+        for (i, m) in g.modules.iter().enumerate() {
+            let nice = {
+                let mut n = m.name.clone();
+                for suffix in ["_Module", "Module"] {
+                    if n.ends_with(suffix) {
+                        n.truncate(n.len() - suffix.len());
+                    }
+                }
+                n
+            };
+            let fl = map.get(&nice).ok_or_else(|| format!("to_rust returned no file for module {}", nice))?;
+            let file = fl.first().ok_or("empty file list")?;
+            let content = std::fs::read_to_string(out.join(file)).map_err(|e| e.to_string())?;
+            files.push((i, file.trim_end_matches(".rs").to_string(), content));
+        }
+        Ok(files)
+    });
+    let _ = std::fs::remove_dir_all(scratch);
+    match r {
+        Ok(Ok(files)) => Ok(Emitted { files }),
+        Ok(Err(e)) => Err(e),
+        Err(p) => Err(format!("front end panicked: {}", p.signature())),
+    }
+}
+
+fn main() {
+    let args = Args::parse();
+    let tier = args.str("tier", "quick");
+    let seed = args.u64("seed", 1);
+    let out = PathBuf::from(args.str("out", "/verif/work/zoo-quick-1"));
+    let nshards = args.u64("shards", 8) as usize;
+    let families = args.str("families", "rand,large,shapes,compat,sets,edges,hostile,protoedge,corpus");
+    let harness = args.str("harness", "/verif/harness");
+    let exclude: Vec<String> = args.get("exclude").map(|s| s.split(',').map(|x| x.to_string()).collect()).unwrap_or_default();
+    monitors::journal::install();
+
+    let mut groups: Vec<Group> = Vec::new();
+    for fam in families.split(',') {
+        let mut rng = Rng::derive(seed, &["zoo", fam], 0);
+        match fam {
+            "rand" => families::rand(&mut groups, &mut rng, &tier),
+            "large" => families::large(&mut groups),
+            "shapes" => families::shapes(&mut groups, &tier),
+            "compat" => families::compat(&mut groups, &mut rng, &tier),
+            "sets" => families::sets(&mut groups, &mut rng, &tier),
+            "edges" => families::edges(&mut groups, &mut rng),
+            "hostile" => families::hostile(&mut groups),
+            "protoedge" => families::protoedge(&mut groups),
+            "corpus" => {}
+            other => eprintln!("unknown family {}", other),
+        }
+    }
+    // --- emit through the real front end
+    let scratch = out.join("scratch");
+    let mut rejected: Vec<serde_json::Value> = Vec::new();
+    let mut shard_mods: Vec<String> = vec![String::new(); nshards];
+    let mut shard_arms: Vec<String> = vec![String::new(); nshards];
+    let mut shard_pair_arms: Vec<String> = vec![String::new(); nshards];
+    let mut types: Vec<serde_json::Value> = Vec::new();
+    let mut universes: Vec<Universe> = Vec::new();
+    let mut type_id = 0usize;
+    let mut emitted_groups = 0usize;
+    for (gi, g) in groups.iter().enumerate() {
+        let gname = format!("g_{}", gi);
+        if exclude.contains(&gname) {
+            rejected.push(json!({"group": gname, "family": g.family, "reason": "excluded after a compile error (C09 observation)"}));
+            continue;
+        }
+        let emitted = match emit_group(g, &scratch) {
+            Ok(e) => e,
+            Err(reason) => {
+                rejected.push(json!({"group": gname, "family": g.family, "reason": reason, "asn1": g.modules.iter().map(print_module).collect::<Vec<_>>()}));
+                continue;
+            }
+        };
+        let shard = emitted_groups % nshards;
+        emitted_groups += 1;
+        let ui = universes.len();
+        universes.push(Universe { modules: g.modules.clone() });
+        let _ = writeln!(shard_mods[shard], "pub mod {} {{", gname);
+        let mut mod_paths: BTreeMap<usize, String> = BTreeMap::new();
+        for (mi, modname, content) in &emitted.files {
+            let _ = writeln!(shard_mods[shard], "    pub mod {};", modname);
+            write_if_changed(&out.join(format!("shard_{}/src/{}/{}.rs", shard, gname, modname)), content);
+            mod_paths.insert(*mi, format!("{}::{}", gname, modname));
+        }
+        let _ = writeln!(shard_mods[shard], "}}");
+        for (mi, m) in g.modules.iter().enumerate() {
+            let path = match mod_paths.get(&mi) {
+                Some(p) => p.clone(),
+                None => continue,
+            };
+            let content = &emitted.files.iter().find(|f| f.0 == mi).unwrap().2;
+            for d in &m.defs {
+                // the Rust type must exist under the name the safe identifier pool predicts (inline macro: not checkable here)
+                if !g.inline_macro && !content.contains(&format!("pub struct {}", d.name)) && !content.contains(&format!("pub enum {}", d.name)) {
+                    rejected.push(json!({"group": gname, "family": g.family, "reason": format!("generated file has no type named {}", d.name)}));
+                    continue;
+                }
+                let _ = writeln!(shard_arms[shard], "        {} => monitors::zoo::run::<{}::{}>(ctx, e),", type_id, path, d.name);
+                types.push(json!({"id": type_id, "shard": shard, "universe": ui, "module": mi, "def": d.name, "family": g.family,
+                    "note": g.notes.get(&d.name).cloned().unwrap_or(serde_json::Value::Null)}));
+                type_id += 1;
+            }
+        }
+        for (a, b) in &g.pairs {
+            if let (Some(pa), Some(pb)) = (mod_paths.get(&0), mod_paths.get(&1)) {
+                let _ = writeln!(shard_pair_arms[shard], "        {} => monitors::zoo::run_pair::<{}::{}, {}::{}>(ctx, e),", type_id, pa, a, pb, b);
+                types.push(json!({"id": type_id, "shard": shard, "universe": ui, "module": 0, "def": a, "family": format!("{}-pair", g.family), "pair_def": b, "note": g.notes.get(a).cloned().unwrap_or(serde_json::Value::Null)}));
+                type_id += 1;
+            }
+        }
+    }
+    // --- corpus: inline modules of the repository's tests, through the macro
+    if families.split(',').any(|f| f == "corpus") {
+        for (ci, (name, text)) in corpus().into_iter().enumerate() {
+            let gname = format!("c_{}", ci);
+            if exclude.contains(&gname) {
+                continue;
+            }
+            let names = match guarded(|| corpus_type_names(&text)) {
+                Ok(Some(n)) => n,
+                _ => continue,
+            };
+            let shard = emitted_groups % nshards;
+            emitted_groups += 1;
+            let _ = writeln!(shard_mods[shard], "pub mod {} {{ pub mod inline; }}", gname);
+            write_if_changed(&out.join(format!("shard_{}/src/{}/inline.rs", shard, gname)), &format!("use asn1rs::prelude::*;\nasn_to_rust!(r####\"{}\"####);\n", text));
+            for n in names {
+                let _ = writeln!(shard_arms[shard], "        {} => monitors::zoo::run_schemaless::<{}::inline::{}>(ctx, e),", type_id, gname, n);
+                types.push(json!({"id": type_id, "shard": shard, "universe": null, "module": 0, "def": n, "family": "corpus", "origin": name, "note": null}));
+                type_id += 1;
+            }
+        }
+    }
+    // --- workspace files
+    let lock = std::fs::read_to_string(format!("{}/Cargo.lock", harness)).unwrap_or_default();
+    write_if_changed(&out.join("Cargo.lock"), &lock);
+    let mut members = String::new();
+    let mut deps = String::new();
+    let mut dispatch = String::new();
+    for s in 0..nshards {
+        let _ = write!(members, "\"shard_{}\", ", s);
+        let _ = writeln!(deps, "shard_{} = {{ path = \"../shard_{}\" }}", s, s);
+        let _ = writeln!(dispatch, "        {} => shard_{}::dispatch(ctx, e),", s, s);
+        write_if_changed(
+            &out.join(format!("shard_{}/Cargo.toml", s)),
+            &format!(
+                "[package]\nname = \"shard_{s}\"\nversion = \"0.1.0\"\nedition = \"2021\"\n\n[features]\nddesc = [\"monitors/ddesc\"]\n\n[dependencies]\nasn1rs = {{ path = \"/repo\", default-features = false, features = [\"macros\", \"model\", \"protobuf\"] }}\nmonitors = {{ path = \"{h}/monitors\" }}\n",
+                s = s,
+                h = harness
+            ),
+        );
+        write_if_changed(
+            &out.join(format!("shard_{}/src/lib.rs", s)),
+            &format!(
+                "#![allow(warnings)]\n{mods}\npub fn dispatch(ctx: &mut monitors::zoo::ZooCtx, e: &monitors::zoo::TypeEntry) -> bool {{\n    match e.id {{\n{arms}{pair_arms}        _ => return false,\n    }}\n    true\n}}\n",
+                mods = shard_mods[s],
+                arms = shard_arms[s],
+                pair_arms = shard_pair_arms[s]
+            ),
+        );
+    }
+    write_if_changed(
+        &out.join("Cargo.toml"),
+        &format!(
+            "[workspace]\nmembers = [{}\"zoorun\"]\nresolver = \"2\"\n\n[profile.checked]\ninherits = \"dev\"\nopt-level = 0\ndebug = \"line-tables-only\"\noverflow-checks = true\ndebug-assertions = true\nincremental = false\n\n[profile.checked.package.\"*\"]\nopt-level = 2\n\n[profile.checked.package.monitors]\nopt-level = 2\n\n[profile.wrapping]\ninherits = \"dev\"\nopt-level = 0\ndebug = \"line-tables-only\"\noverflow-checks = false\ndebug-assertions = false\nincremental = false\n\n[profile.wrapping.package.\"*\"]\nopt-level = 2\n",
+            members
+        ),
+    );
+    write_if_changed(&out.join(".cargo/config.toml"), "[net]\noffline = true\n");
+    let ddesc_feats: String = (0..nshards).map(|s| format!("\"shard_{}/ddesc\"", s)).collect::<Vec<_>>().join(", ");
+    write_if_changed(
+        &out.join("zoorun/Cargo.toml"),
+        &format!(
+            "[package]\nname = \"zoorun\"\nversion = \"0.1.0\"\nedition = \"2021\"\n\n[features]\nddesc = [\"monitors/ddesc\", {ddesc}]\n\n[dependencies]\nasn1rs = {{ path = \"/repo\", default-features = false, features = [\"macros\", \"model\", \"protobuf\"] }}\nmonitors = {{ path = \"{h}/monitors\" }}\nvgen = {{ path = \"{h}/vgen\" }}\nserde_json = \"1\"\n{deps}",
+            ddesc = ddesc_feats,
+            h = harness,
+            deps = deps
+        ),
+    );
+    let template = std::fs::read_to_string(format!("{}/zoorun-template/main.rs", harness)).expect("zoorun template");
+    write_if_changed(&out.join("zoorun/src/main.rs"), &template.replace("/*DISPATCH*/", &dispatch));
+    write_if_changed(
+        &out.join("schema.json"),
+        &serde_json::to_string(&json!({"tier": tier, "seed": seed, "universes": universes, "types": types, "rejected": rejected})).unwrap(),
+    );
+    println!(
+        "zoogen: {} groups, {} emitted, {} rejected, {} types, {} shards -> {}",
+        groups.len(),
+        emitted_groups,
+        rejected.len(),
+        types.len(),
+        nshards,
+        out.display()
+    );
+    for r in rejected.iter().take(5) {
+        println!("  rejected: {} {}", r["group"], r["reason"]);
+    }
+}
+
+pub fn corpus() -> Vec<(String, String)> {
+    let mut out = Vec::new();
+    let dir = match std::fs::read_dir("/repo/tests") {
+        Ok(d) => d,
+        Err(_) => return out,
+    };
+    let mut files: Vec<_> = dir.flatten().map(|e| e.path()).filter(|p| p.extension().map(|e| e == "rs").unwrap_or(false)).collect();
+    files.sort();
+    for f in files {
+        let text = match std::fs::read_to_string(&f) {
+            Ok(t) => t,
+            Err(_) => continue,
+        };
+        let mut rest = &text[..];
+        let mut k = 0;
+        while let Some(pos) = rest.find("asn_to_rust!(") {
+            rest = &rest[pos + 13..];
+            let r = rest.trim_start();
+            let (open, close) = if r.starts_with("r#\"") { ("r#\"", "\"#") } else if r.starts_with("r\"") { ("r\"", "\"") } else { continue };
+            let body = &r[open.len()..];
+            if let Some(end) = body.find(close) {
+                let module = &body[..end];
+                if module.contains("BEGIN") && module.contains("END") && !module.contains("####") {
+                    out.push((format!("{}#{}", f.file_name().unwrap().to_string_lossy(), k), module.to_string()));
+                    k += 1;
+                }
+                rest = &body[end..];
+            }
+        }
+    }
+    out
+}
+
+/// names of the top-level Rust types the front end generates for a corpus module (None: rejected)
+fn corpus_type_names(text: &str) -> Option<Vec<String>> {
+    use asn1rs::model::parse::Tokenizer;
+    use asn1rs::model::Model;
+    let m = Model::try_from(Tokenizer.parse(text)).ok()?.try_resolve().ok()?;
+    let top: Vec<String> = m.definitions.iter().map(|d| d.0.clone()).collect();
+    let rust = m.to_rust();
+    Some(rust.definitions.iter().map(|d| d.0.clone()).filter(|n| top.iter().any(|t| &rust_type_name(t) == n)).collect())
+}
+
+fn rust_type_name(name: &str) -> String {
+    let mut out = String::new();
+    let mut up = true;
+    for c in name.chars() {
+        if up {
+            out.extend(c.to_uppercase());
+            up = false;
+        } else if c == '-' || c == '_' {
+            up = true;
+        } else {
+            out.push(c);
+        }
+    }
+    out
+}
+
+pub fn module_name(gi: usize, j: usize) -> String {
+    format!("Zm{}x{}", gi, j)
+}
+
+pub fn gen_cfg_codec() -> GenCfg {
+    GenCfg::codec()
+}
+
+pub fn new_gen<'r>(rng: &'r mut Rng, cfg: GenCfg) -> Gen<'r> {
+    Gen::new(rng, cfg)
+}
+
+#[allow(dead_code)]
+fn unused(_: &str) -> String {
+    rust_module_name("")
+}
